@@ -401,6 +401,148 @@ impl Model for AModel {
     }
 }
 
+/// (C) Two document-changing steps between two reads of the patches. The explorers above read the
+/// patches after every action; here a view owner applies a change that removes a conflict winner
+/// (so the losing value - possibly a whole nested object - is exposed) and then, BEFORE reading
+/// diff_incremental(), something else happens that rewrites the actor table (an actor sorting
+/// before / between / after the others joins through apply_changes, merge, or the owner's first
+/// local edit under a new actor id) or adds further changes. Every combination of a small family.
+fn exposure_then_more(enc: TextEncoding, rep: &crate::report::Report) -> Result<(), Violation> {
+    use automerge::transaction::Transactable;
+    use automerge::{ObjType, ROOT};
+    #[derive(Clone, Copy, Debug)]
+    enum Kind {
+        MapObj,
+        ListObj,
+        TextObj,
+        Scalar,
+        Counter,
+    }
+    #[derive(Clone, Copy, Debug)]
+    enum Via {
+        Apply,
+        Merge,
+        LocalEditNewActor,
+        LocalEditSameActor,
+        Nothing,
+    }
+    let put = |d: &mut AutoCommit, in_list: bool, kind: Kind, tag: &str| -> Result<(), automerge::AutomergeError> {
+        let (obj, prop): (automerge::ObjId, automerge::Prop) = if in_list {
+            let l = d.get(ROOT, "l")?.map(|x| x.1).unwrap();
+            (l, 0usize.into())
+        } else {
+            (ROOT, "k".into())
+        };
+        match kind {
+            Kind::MapObj => {
+                let o = d.put_object(&obj, prop, ObjType::Map)?;
+                let inner = d.put_object(&o, "inner", ObjType::Map)?;
+                d.put(&inner, "deep", tag)?;
+                d.put(&o, "x", 1)?;
+            }
+            Kind::ListObj => {
+                let o = d.put_object(&obj, prop, ObjType::List)?;
+                d.insert(&o, 0, tag)?;
+                let m = d.insert_object(&o, 1, ObjType::Map)?;
+                d.put(&m, "y", 2)?;
+            }
+            Kind::TextObj => {
+                let o = d.put_object(&obj, prop, ObjType::Text)?;
+                d.splice_text(&o, 0, 0, tag)?;
+            }
+            Kind::Scalar => d.put(&obj, prop, tag)?,
+            Kind::Counter => d.put(&obj, prop, automerge::ScalarValue::counter(tag.len() as i64))?,
+        }
+        Ok(())
+    };
+    let e = |x: automerge::AutomergeError| Violation::new("patched-view==document", "exposure:setup", format!("{:?}", x));
+    for in_list in [false, true] {
+        for loser_kind in [Kind::MapObj, Kind::ListObj, Kind::TextObj, Kind::Scalar, Kind::Counter] {
+            for winner_kind in [Kind::MapObj, Kind::Scalar] {
+                for via in [Via::Apply, Via::Merge, Via::LocalEditNewActor, Via::LocalEditSameActor, Via::Nothing] {
+                    for joiner in [0x00u8, 0x50, 0xf0] {
+                        if matches!(via, Via::Nothing | Via::LocalEditSameActor) && joiner != 0x00 {
+                            continue;
+                        }
+                        for read_in_between in [false, true] {
+                            // shared start: a list at "l" with one element
+                            let mut base = AutoCommit::new_with_encoding(enc).with_actor(actor(0x40));
+                            let l = base.put_object(ROOT, "l", ObjType::List).map_err(e)?;
+                            base.insert(&l, 0, 0).map_err(e)?;
+                            base.commit();
+                            // loser by 0x80, winner by 0xa0 with a later op id, concurrently
+                            let mut lo = base.fork().with_actor(actor(0x80));
+                            put(&mut lo, in_list, loser_kind, "loser").map_err(e)?;
+                            lo.commit();
+                            let mut wi = base.fork().with_actor(actor(0xa0));
+                            wi.put(ROOT, "pad", 1).map_err(e)?;
+                            wi.put(ROOT, "pad", 2).map_err(e)?;
+                            wi.put(ROOT, "pad", 3).map_err(e)?;
+                            wi.put(ROOT, "pad", 4).map_err(e)?;
+                            wi.put(ROOT, "pad", 5).map_err(e)?;
+                            wi.put(ROOT, "pad", 6).map_err(e)?;
+                            put(&mut wi, in_list, winner_kind, "winner").map_err(e)?;
+                            wi.commit();
+                            // the view owner has both
+                            let mut d = base.fork().with_actor(actor(0x60));
+                            d.merge(&mut lo.clone()).map_err(e)?;
+                            d.merge(&mut wi.clone()).map_err(e)?;
+                            d.update_diff_cursor();
+                            let mut view = View::of_doc(&d, None, enc);
+                            // the winner's author removes its value without having seen the loser
+                            if in_list {
+                                let l = wi.get(ROOT, "l").map_err(e)?.map(|x| x.1).unwrap();
+                                wi.delete(&l, 0).map_err(e)?;
+                            } else {
+                                wi.delete(ROOT, "k").map_err(e)?;
+                            }
+                            wi.commit();
+                            let what = format!("in_list={} loser={:?} winner={:?} then {:?} (actor {:02x}), read in between: {}", in_list, loser_kind, winner_kind, via, joiner, read_in_between);
+                            let site = format!("exposure+{:?}", via);
+                            let mut read = |d: &mut AutoCommit, view: &mut View| -> Result<(), Violation> {
+                                let patches = d.diff_incremental();
+                                let v = apply_all(view.clone(), &patches, &what, &site)?;
+                                cmp(&v, &View::of_doc(d, None, enc), &site, &what, &patches)?;
+                                *view = v;
+                                Ok(())
+                            };
+                            d.merge(&mut wi.clone()).map_err(e)?;
+                            if read_in_between {
+                                read(&mut d, &mut view)?;
+                            }
+                            match via {
+                                Via::Nothing => {}
+                                Via::Apply | Via::Merge => {
+                                    let mut j = base.fork().with_actor(actor(joiner));
+                                    j.put(ROOT, "joined", 1).map_err(e)?;
+                                    j.commit();
+                                    if matches!(via, Via::Merge) {
+                                        d.merge(&mut j).map_err(e)?;
+                                    } else {
+                                        let ch = j.get_last_local_change().unwrap();
+                                        d.apply_changes([ch]).map_err(e)?;
+                                    }
+                                }
+                                Via::LocalEditNewActor => {
+                                    d.set_actor(actor(joiner));
+                                    d.put(ROOT, "local", 1).map_err(e)?;
+                                }
+                                Via::LocalEditSameActor => {
+                                    d.put(ROOT, "local", 1).map_err(e)?;
+                                }
+                            }
+                            read(&mut d, &mut view)?;
+                            rep.count("exposure_scenarios", 1);
+                            rep.count("evaluations", 1);
+                        }
+                    }
+                }
+            }
+        }
+    }
+    Ok(())
+}
+
 pub fn run(args: &Args) -> i32 {
     let rep = new_report("C09", args, "model_checking");
     let enc = TextEncoding::UnicodeCodePoint;
@@ -438,9 +580,21 @@ pub fn run(args: &Args) -> i32 {
         ..Default::default()
     };
     let ex2 = run_models(&rep, args, amodels, &lim);
+    // (C) exposure of a losing value followed by a second step before the patches are read
+    if args.opt("--replay").is_none() || crate::util::replaying() {
+        match crate::util::guard(|| exposure_then_more(enc, &rep)) {
+            Ok(Ok(())) => {}
+            Ok(Err(v)) => {
+                rep.violation(v.with_case(serde_json::json!({"explorer": "exposure_then_more"})));
+            }
+            Err(p) => {
+                rep.violation(Violation::new("panic", format!("exposure_then_more@{}", p.location), p.message).with_case(serde_json::json!({"explorer": "exposure_then_more"})));
+            }
+        }
+    }
     let ex = ex1.unwrap_or(false) && ex2.unwrap_or(ex1.is_some());
     rep.finish(
-        "(A) history explorer over Automerge replicas with an edge oracle that redoes every transition through the logging APIs: transaction_log_patches (+make_patches), merge_and_log_patches, apply_changes_log_patches one change at a time in reverse order (so changes queue and are released), load_incremental_log_patches, receive_sync_message_log_patches over a whole sync session; state oracle: load_with_options{patch_log} and current_state() applied to the empty view; (B) explicit-state BFS over AutoCommit replicas with an armed diff cursor, each owning a view: actions edit (left open, closed by diff_incremental), two edits in one transaction, edit then rollback, merge, load_incremental, sync session (view updated after every received message), isolate(H) for consistent cuts, integrate; after every action diff_incremental() patches applied by the harness's patch applier must turn the previous view into exactly the view read from the document (winners, conflict flags, counters, text units, per-unit marks)",
+        "(A) history explorer over Automerge replicas with an edge oracle that redoes every transition through the logging APIs: transaction_log_patches (+make_patches), merge_and_log_patches, apply_changes_log_patches one change at a time in reverse order (so changes queue and are released), load_incremental_log_patches, receive_sync_message_log_patches over a whole sync session; state oracle: load_with_options{patch_log} and current_state() applied to the empty view; (B) explicit-state BFS over AutoCommit replicas with an armed diff cursor, each owning a view: actions edit (left open, closed by diff_incremental), two edits in one transaction, edit then rollback, merge, load_incremental, sync session (view updated after every received message), isolate(H) for consistent cuts, integrate; after every action diff_incremental() patches applied by the harness's patch applier must turn the previous view into exactly the view read from the document (winners, conflict flags, counters, text units, per-unit marks); (C) every combination of a small family where TWO document-changing steps happen between two reads of diff_incremental(): a change that removes a conflict winner and exposes the loser (nested map / list / text object, scalar, counter; in a map key and in a list element) followed by a join of an actor sorting before / between / after (through apply_changes, merge, the owner's first edit under a new actor id), a plain local edit, or nothing, with and without a read in between",
         &["view comparison ignores marks on embedded-object placeholders (Insert patches cannot carry marks)"],
         ex,
     )
